@@ -686,9 +686,6 @@ def fetchNsVars (S : TSet) (fuel : Nat) (tu : Str) (t : Template) (cid : Nat) :
     let id ← getTagNs S fuel tu t cid x
     fetchNsVars S fuel tu t cid r ((x, id) :: acc)
 
-/-- number of the tag `nsn` among the template's namespaces -/
-def nsIndex (t : Template) (nsn : Str) : Nat := (t.nss.takeWhile (·.name ≠ nsn)).length
-
 mutual
 def execItems (S : TSet) : Nat → Env → List Item → M Unit
   | 0, _, _ => throw .fuel
@@ -811,16 +808,12 @@ def execCode (S : TSet) : Nat → CodeRef → Nat → List (Str × Val) → M Un
           match alookup dn tag.inline with
           | none => throw .internal
           | some items => do
-            let free := freeNames t items
+            -- the defs written inside a `<%namespace>` tag are generated before `has_ns_imports` is recorded: free names
+            -- are read with `context.get`, the namespaces of the module with `_mako_get_namespace`
             let siblings := tag.inline.map (·.1)
-            let plain := free.filter fun x => x ∉ siblings ∧ x ∉ t.nsNames
-            -- `has_ns_imports` as it stood when this def was written: the tags up to and including its own
-            let importsSoFar := (t.nss.take (nsIndex t nsn + 1)).any (·.imports.isSome)
-            if importsSoFar ∧ ¬ plain.isEmpty then throw .name      -- NameError: name '_import_ns' is not defined
-            else do
-              let nsn' := free.filter fun x => x ∉ siblings ∧ x ∈ t.nsNames
-              let nsvars ← fetchNsVars S fuel r.tu t cid nsn' []
-              execItems S fuel ⟨r.tu, t, cid, [], none, nsvars, false, siblings, some nsn⟩ items
+            let nsn' := (freeNames t items).filter fun x => x ∉ siblings ∧ x ∈ t.nsNames
+            let nsvars ← fetchNsVars S fuel r.tu t cid nsn' []
+            execItems S fuel ⟨r.tu, t, cid, [], none, nsvars, false, siblings, some nsn⟩ items
     | _ => throw .internal
 
 /-- `_include_file(context, uri, calling_uri, **kwargs)` -/
